@@ -5,6 +5,7 @@
 -/
 import Ladybug.DrvCore
 import Ladybug.Model.Sky
+import Ladybug.Model.SkyObj
 
 open Drv Sky
 
@@ -59,6 +60,163 @@ def chunks (k : Nat) (l : List Float) : List (List Float) :=
     | 0 => acc.reverse
     | fuel + 1 => if l.isEmpty then acc.reverse else go fuel (l.drop k) (l.take k :: acc)
   go (l.length + 1) l []
+
+/-! ### histories on one object (round 3): `hwea`, `hsky` -/
+
+def showOut (o : Out Float) : String :=
+  match o with
+  | .unit => "ok"
+  | .vals l => if l.isEmpty then "ok" else "ok " ++ joinSp (l.map sf)
+  | .err .assert => "err:assert"
+  | .err .index => "err:index"
+  | .err .refused => "err:refused"
+  | .err (.sky e) => showErr e
+
+def takeFloats (n : Nat) (toks : List String) : Option (List Float × List String) :=
+  if toks.length < n then none else (fls (toks.take n)).map fun l => (l, toks.drop n)
+
+def pairs : List Float → List (Float × Float)
+  | a :: b :: r => (a, b) :: pairs r
+  | _ => []
+
+def parseWeaOps : Nat → List String → Option (List (WeaOp Float))
+  | 0, _ => none
+  | fuel + 1, toks =>
+    match toks with
+    | [] => some []
+    | "G" :: r => (parseWeaOps fuel r).map (WeaOp.readGhi :: ·)
+    | "H" :: r => (parseWeaOps fuel r).map (WeaOp.readDirH :: ·)
+    | "D" :: a :: z :: rf :: iso :: r =>
+      match fl a, fl z, fl rf, bool? iso with
+      | some a, some z, some rf, some iso =>
+        (parseWeaOps fuel r).map (WeaOp.readDirectional a z rf iso :: ·)
+      | _, _, _, _ => none
+    | "I" :: d :: r =>
+      match fl d with
+      | some d => (parseWeaOps fuel r).map (WeaOp.readIllum d :: ·)
+      | none => none
+    | "U" :: m :: r =>
+      match fl m with
+      | some m => (parseWeaOps fuel r).map (WeaOp.readSunUp m :: ·)
+      | none => none
+    | "L" :: k :: r =>
+      match k.toNat? with
+      | some k => (parseWeaOps fuel r).map (WeaOp.setLocation k :: ·)
+      | none => none
+    | "E" :: b :: r =>
+      match bool? b with
+      | some b => (parseWeaOps fuel r).map (WeaOp.setEnforce b :: ·)
+      | none => none
+    | "N" :: m :: r =>
+      match m.toNat? with
+      | some m =>
+        match takeFloats m r with
+        | some (vs, r') => (parseWeaOps fuel r').map (WeaOp.setDnr vs :: ·)
+        | none => none
+      | none => none
+    | "F" :: m :: r =>
+      match m.toNat? with
+      | some m =>
+        match takeFloats m r with
+        | some (vs, r') => (parseWeaOps fuel r').map (WeaOp.setDhr vs :: ·)
+        | none => none
+      | none => none
+    | "S" :: i :: v :: r =>
+      match i.toNat?, fl v with
+      | some i, some v => (parseWeaOps fuel r).map (WeaOp.setDnrAt i v :: ·)
+      | _, _ => none
+    | "T" :: i :: v :: r =>
+      match i.toNat?, fl v with
+      | some i, some v => (parseWeaOps fuel r).map (WeaOp.setDhrAt i v :: ·)
+      | _, _ => none
+    | "X" :: r => (parseWeaOps fuel r).map (WeaOp.refused :: ·)
+    | _ => none
+
+/-- `hwea <timestep> <n> <nloc> <sun tables: nloc x (on the hour, half hour) x n x (alt az)>
+    <dnr x n> <dhr x n> <ops>`; the object starts at location 0 with enforce_on_hour = False. -/
+def handleWea (ts n nloc : Nat) (rest : List String) : String :=
+  match takeFloats (nloc * 2 * n * 2) rest with
+  | none => "bad-op"
+  | some (sunf, r1) =>
+    match takeFloats n r1 with
+    | none => "bad-op"
+    | some (dnr, r2) =>
+      match takeFloats n r2 with
+      | none => "bad-op"
+      | some (dhr, r3) =>
+        match parseWeaOps (r3.length + 1) r3 with
+        | none => "bad-op"
+        | some ops =>
+          let tables : List (List (Float × Float)) := (chunks (2 * n) sunf).map pairs
+          let env : WeaEnv Float :=
+            { nloc := nloc, suns := fun k h => (tables[k * 2 + (if h then 1 else 0)]?).getD [] }
+          let o : WeaObj Float := WeaObj.fresh 0 false ts dnr dhr
+          " | ".intercalate ((o.run env ops).2.map showOut)
+
+def parseSkyOps : Nat → List String → Option (List (SkyOp Float))
+  | 0, _ => none
+  | fuel + 1, toks =>
+    match toks with
+    | [] => some []
+    | "R" :: k :: r =>
+      match k.toNat? with
+      | some k => (parseSkyOps fuel r).map (SkyOp.readRadiation k :: ·)
+      | none => none
+    | "Q" :: r => (parseSkyOps fuel r).map (SkyOp.readDesignDay :: ·)
+    | "C" :: v :: r =>
+      match fl v with
+      | some v => (parseSkyOps fuel r).map (SkyOp.setClearness v :: ·)
+      | none => none
+    | "B" :: v :: r =>
+      match fl v with
+      | some v => (parseSkyOps fuel r).map (SkyOp.setTauB v :: ·)
+      | none => none
+    | "W" :: v :: r =>
+      match fl v with
+      | some v => (parseSkyOps fuel r).map (SkyOp.setTauD v :: ·)
+      | none => none
+    | "V" :: b :: r =>
+      match bool? b with
+      | some b => (parseSkyOps fuel r).map (SkyOp.setUse2017 b :: ·)
+      | none => none
+    | "A" :: i :: r =>
+      match i.toNat? with
+      | some i => (parseSkyOps fuel r).map (SkyOp.setDate i :: ·)
+      | none => none
+    | "Y" :: b :: r =>
+      match bool? b with
+      | some b => (parseSkyOps fuel r).map (SkyOp.setDls b :: ·)
+      | none => none
+    | "P" :: k :: r =>
+      match k.toNat? with
+      | some k => (parseSkyOps fuel r).map (SkyOp.setDdLocation k :: ·)
+      | none => none
+    | "X" :: r => (parseSkyOps fuel r).map (SkyOp.refused :: ·)
+    | _ => none
+
+/-- `hsky <clear|tau> <ndate> <nloc> <month x ndate> <design-day period ok x ndate> <altitudes: ndate x (dls 0,1) x nloc x 24>
+    <date> <dls> <clearness> <tau_b> <tau_d> <use_2017> <dd location> <ops>` -/
+def handleSky (kind : SkyKind) (ndate nloc : Nat) (rest : List String) : String :=
+  if rest.length < 2 * ndate then "bad-op" else
+  match (rest.take ndate).mapM String.toInt?, ((rest.drop ndate).take ndate).mapM bool?,
+        takeFloats (ndate * 2 * nloc * 24) (rest.drop (2 * ndate)) with
+  | some months, some oks, some (altf, r1) =>
+    match r1 with
+    | d :: dls :: cl :: tb :: td :: u :: k :: r2 =>
+      match d.toNat?, bool? dls, fls [cl, tb, td], bool? u, k.toNat?, parseSkyOps (r2.length + 1) r2 with
+      | some d, some dls, some [cl, tb, td], some u, some k, some ops =>
+        let tables : List (List Float) := chunks 24 altf
+        let env : SkyEnv Float :=
+          { nloc := nloc, ndate := ndate, month := fun i => (months[i]?).getD 0,
+            ddPeriodOk := fun i => (oks[i]?).getD false,
+            alts := fun i s j => (tables[(i * 2 + (if s then 1 else 0)) * nloc + j]?).getD [] }
+        let o : SkyObj Float :=
+          { kind := kind, date := d, dls := dls, clearness := cl, tb := tb, td := td, use2017 := u,
+            ddLoc := k }
+        " | ".intercalate ((o.run env ops).2.map showOut)
+      | _, _, _, _, _, _ => "bad-op"
+    | _ => "bad-op"
+  | _, _, _ => "bad-op"
 
 def handle (toks : List String) : String :=
   match toks with
@@ -172,6 +330,16 @@ def handle (toks : List String) : String :=
   | ["ddtau", alt, tb, td, u] =>
     match fls [alt, tb, td], bool? u with
     | some [alt, tb, td], some u => ok3 (designDayTau1 alt tb td u)
+    | _, _ => "bad-op"
+  | "hwea" :: ts :: n :: nloc :: rest =>
+    match ts.toNat?, n.toNat?, nloc.toNat? with
+    | some ts, some n, some nloc => handleWea ts n nloc rest
+    | _, _, _ => "bad-op"
+  | "hsky" :: kind :: ndate :: nloc :: rest =>
+    match ndate.toNat?, nloc.toNat? with
+    | some ndate, some nloc =>
+      if kind = "clear" then handleSky .clear ndate nloc rest
+      else if kind = "tau" then handleSky .tau ndate nloc rest else "bad-op"
     | _, _ => "bad-op"
   | _ => "bad-op"
 
